@@ -113,6 +113,12 @@ static struct reb_treecell *reb_tree_add_particle_to_cell(struct reb_simulation*
 	if (node->pt >= 0) { // It's a leaf node
 		int o1 = reb_reb_tree_get_octant_for_particle_in_cell(particles[node->pt], node);
 		int o2 = reb_reb_tree_get_octant_for_particle_in_cell(particles[pt], node);
+        if (o1==o2 && isnan(particles[node->pt].y)){
+            // The particle in this leaf is flagged for removal (see reb_simulation_remove_particle). It has no position
+            // anymore and is dropped the next time its cell is visited. Put it in another octant, otherwise the two 
+            // particles might never separate (infinite recursion, e.g. after a massless particle merged with it).
+            o1 = (o2+1)%8;
+        }
         if (o1==o2){ // If they fall in the same octant, check if they have same coordinates to avoid infinite recursion
             if (particles[pt].x == particles[node->pt].x && particles[pt].y == particles[node->pt].y && particles[pt].z == particles[node->pt].z){
                 reb_simulation_error(r, "Cannot add two particles with the same coordinates to the tree.");
